@@ -13,6 +13,7 @@ inspect/linecache/tokenize.  Stubs: event-loop clock + selector (SimLoop), threa
 """
 import ast
 import asyncio
+import contextvars
 import hashlib
 import json
 import os
@@ -50,7 +51,8 @@ ASSUMPTIONS = [
 ]
 REQUIRED_PROBES = {
     "C11": ["probe_failed_derive", "derive_shared", "empty_metadata_made", "exec_sync"],
-    "C12": ["probe_completion_order_differs_from_start_order",
+    "C12": ["probe_completion_order_differs_from_start_order", "fault_multi_thread_block",
+            "probe_threads_completed_out_of_issue_order",
             "probe_same_stream_executed_concurrently", "probe_two_root_query",
             "probe_rootless_query", "fault_stall_then_cancel", "result_exc"],
     "C16": ["probe_qmetadata_twice_in_a_row", "qmd_repeated_key", "c16_backend_checks"],
@@ -105,6 +107,7 @@ TERMS = ["pandas", "awkward", "root", "parquet"]
 FAULT_KINDS = [
     "exec_error", "stall_cancel", "cancel", "timeout", "sync_in_loop", "derive_fail",
     "shared_ast", "typed", "unbind", "nontransportable", "touch", "override", "dup_exec",
+    "threads",
 ]
 
 SAMPLES = [
@@ -123,9 +126,9 @@ SAMPLES = [
 PROFILES = {
     # op weights per property
     "C11": dict(derive=35, md=9, qmd=8, term=5, fail=8, rebind=3, unbind=0, touch=1,
-                exec_sync=10, spawn=12, cancel=3, sleep=5, drain=1, join=1, rootless=0),
+                exec_sync=10, spawn=12, cancel=3, sleep=5, drain=1, join=1, rootless=0, mt=2),
     "C12": dict(derive=24, md=9, qmd=4, term=6, fail=3, rebind=1, unbind=0, touch=0,
-                exec_sync=10, spawn=30, cancel=6, sleep=8, drain=2, join=2, rootless=1),
+                exec_sync=10, spawn=30, cancel=6, sleep=8, drain=2, join=2, rootless=1, mt=5),
     "C16": dict(derive=24, md=5, qmd=32, term=5, fail=2, rebind=1, unbind=0, touch=0,
                 exec_sync=9, spawn=8, cancel=1, sleep=3, drain=1, join=0, rootless=0),
     "C04": dict(derive=40, md=2, qmd=2, term=1, fail=0, rebind=26, unbind=4, touch=4,
@@ -191,6 +194,12 @@ def gen_site(rng):
             lambda: f"{{'p': {e}.a + {v()}, 'q': {v()}}}",
             lambda: f"({e}.a + {v()}, {e}.tag == {tag()})",
             lambda: f"[{j}.pt for {j} in {e}.jets if {j}.pt > {v()} if {j}.eta < {v()}]",
+        ]
+        # the same name bound at two nesting levels, and used again after the inner scope ends
+        forms += [
+            lambda: f"{e}.jets.Select(lambda {k}: {k}.pt).Select(lambda {j}: {e}.jets.Where(lambda {j}: {j}.pt > {v()}).Count() * {j})",
+            lambda: f"{e}.jets.Select(lambda {k}: {k}.pt).Select(lambda {j}: {j} + {e}.jets.Select(lambda {j}: {j}.eta + {v()}).Count() + {j})",
+            lambda: f"{e}.jets.Select(lambda {k}: {k}.pt).Select(lambda {j}: [{j}.eta for {j} in {e}.jets if {j}.pt > {v()}].Count() + {j})",
         ]
         if shadow in ("G0", "c0", "c1") and binders["j"] == shadow:
             # the shadowing binder's scope ends; afterwards the name is the captured one again
@@ -284,6 +293,8 @@ def generate(prop: str, seed: int, tier: str = "quick", fault_free: bool = False
         weights["unbind"] = 0
     if "touch" not in faults:
         weights["touch"] = 0
+    if "threads" not in faults:
+        weights["mt"] = 0
     modes = dict(MODE_W[prop])
     if "shared_ast" not in faults:
         modes["shared"] = 0
@@ -297,8 +308,17 @@ def generate(prop: str, seed: int, tier: str = "quick", fault_free: bool = False
             ops.append({"op": "derive", "parent": w.randrange(64), "lam": w.randrange(64),
                         "mode": _wchoice(w, modes)})
         elif k == "md":
-            md = {} if w.random() < 0.5 else {w.choice(["x", "y"]): w.randint(0, 3)}
+            r = w.random()
+            if r < 0.45:
+                md = {}
+            elif r < 0.8:
+                md = {w.choice(["x", "y"]): w.randint(0, 3)}
+            else:  # the very blocks the typed models' callbacks add
+                md = w.choice([{"m": "evt"}, {"m": "jet_eta"}, {"f": "fsq"}])
             ops.append({"op": "md", "parent": w.randrange(64), "md": md})
+            if w.random() < 0.3:  # stacked wrappers on the stream just made, often identical
+                md2 = dict(md) if w.random() < 0.5 else {w.choice(["x", "y"]): w.randint(0, 3)}
+                ops.append({"op": "md", "parent": -1, "md": md2})
         elif k == "qmd":
             md = {}
             for _ in range(w.randint(1, 2)):
@@ -347,6 +367,8 @@ def generate(prop: str, seed: int, tier: str = "quick", fault_free: bool = False
                 tmo = f.choice([0.0, 0.5, 30.0, 4000.0])
             op = {"op": "spawn", "stream": si, "via": via, "plan": plan, "timeout": tmo,
                   "override": ("override" in faults and w.random() < 0.15)}
+            if "dup_exec" in faults and w.random() < 0.35:
+                op["title_pool"] = w.randrange(3)  # a retry / an untitled call: titles repeat
             ops.append(op)
             if w.random() < 0.5:  # a burst: no scheduling point in between
                 continue
@@ -362,6 +384,14 @@ def generate(prop: str, seed: int, tier: str = "quick", fault_free: bool = False
             ops.append({"op": "join", "parent": w.randrange(64), "other": w.randrange(64)})
         elif k == "rootless":
             ops.append({"op": "rootless", "lam": w.randrange(64)})
+        elif k == "mt":
+            # several user threads, each issuing synchronous value() calls (stage 2)
+            ths = []
+            for _ in range(w.randint(2, 3)):
+                ths.append([{"stream": w.randrange(64), "plan": _gen_plan(f, faults, True),
+                             "override": ("override" in faults and w.random() < 0.15)}
+                            for _ in range(w.randint(1, 3))])
+            ops.append({"op": "mt_block", "threads": ths})
     return {
         "property": prop,
         "engine": "forest",
@@ -408,6 +438,9 @@ def chain_lambdas(a):
 
 def sdig(s: str) -> str:
     return hashlib.sha1(s.encode()).hexdigest()[:12]
+
+
+CURRENT_CALL = contextvars.ContextVar("verif_current_call", default=None)
 
 
 class Token:
@@ -499,7 +532,11 @@ class Forest:
         from func_adl import find_EventDataset
 
         self.exec_starts += 1
-        call = self.by_title.get(title) if title is not None else self.sync_call
+        # attribution: the call whose coroutine / thread (transitively) started this executor;
+        # titles may repeat between calls, so they are only a fallback
+        call = CURRENT_CALL.get()
+        if call is None:
+            call = self.by_title.get(title) if title is not None else self.sync_call
         d = ast.dump(a)
         try:
             root_obj = getattr(find_EventDataset(a), "_eds_object", None)
@@ -999,9 +1036,11 @@ class Forest:
             raise Violation("C12/route", {"what": "rootless value() reached an executor"})
 
     # -- executions ---------------------------------------------------------------------------
-    def new_call(self, m, plan, override, via, timeout, titled=True):
+    def new_call(self, m, plan, override, via, timeout, titled=True, title_pool=None):
         no = len(self.calls)
         title = f"t{no}" if titled else None
+        if title_pool is not None:  # titles may repeat between calls (a retry keeps its title)
+            title = [None, "q0", "q1"][title_pool % 3]
         call = {"no": no, "m": m, "title": title, "plan": plan, "via": via, "timeout": timeout,
                 "override": override, "starts": [], "res": None, "began": False,
                 "may_cancel": plan[0] == "stall", "err": None, "has_ret": False, "ret": None,
@@ -1010,7 +1049,7 @@ class Forest:
         if plan[0] == "error":
             call["err"] = ERRS[plan[2]](f"injected for call {no}")
         self.calls.append(call)
-        if title is not None:
+        if title is not None and title_pool is None:
             self.by_title[title] = call
         self.stat(f"plan_{plan[0]}")
         return call
@@ -1039,11 +1078,14 @@ class Forest:
             kw["title"] = call["title"]
         return kw
 
-    def run_sync(self, call):
+    def run_sync(self, call, mt=False):
         "stream.value(...) on the current thread (blocks the outer loop, as in production)."
         self.expectations(call)
         t0 = self.world.now
-        prev, self.sync_call = self.sync_call, call
+        tok = CURRENT_CALL.set(call)
+        prev = self.sync_call
+        if not mt:
+            self.sync_call = call
         try:
             r = call["m"].stream.value(**self.kwargs_for(call))
             call["res"] = ("ret", r)
@@ -1052,9 +1094,11 @@ class Forest:
         except BaseException as e:
             call["res"] = ("exc", e)
         finally:
-            self.sync_call = prev
+            CURRENT_CALL.reset(tok)
+            if not mt:
+                self.sync_call = prev
+                self.sync_block += self.world.now - t0
             call["done_t"] = self.world.now
-            self.sync_block += self.world.now - t0
         self.ev("call_done", call["no"], call["res"][0])
 
     async def one(self, call):
@@ -1063,6 +1107,7 @@ class Forest:
                 self.run_sync(call)
                 return
             self.expectations(call)
+            CURRENT_CALL.set(call)  # this task's own context
             coro = call["m"].stream.value_async(**self.kwargs_for(call))
             if call["timeout"] is not None:
                 r = await asyncio.wait_for(coro, call["timeout"])
@@ -1092,7 +1137,10 @@ class Forest:
     def op_spawn(self, op, loop):
         m = self.ref(op, "stream")
         self.last_op = "execute"
-        call = self.new_call(m, op["plan"], op["override"], op["via"], op["timeout"])
+        call = self.new_call(m, op["plan"], op["override"], op["via"], op["timeout"],
+                             title_pool=op.get("title_pool"))
+        if op.get("title_pool") is not None:
+            self.stat("calls_with_repeated_title")
         t = loop.create_task(self.one(call), name=f"call-{call['no']}")
         call["task"] = t
         call["op_id"] = self.cur_id
@@ -1104,6 +1152,46 @@ class Forest:
             self.stat("fault_stall_then_cancel")
         if op["timeout"] is not None:
             self.stat("fault_timeout_armed")
+
+    def op_mt(self, op):
+        """Several simulated user threads call value() concurrently: their nested event loops
+        interleave step by step under the world's baton scheduler, on the shared virtual clock.
+        The outer loop is blocked meanwhile (as for any synchronous call made from a coroutine)."""
+        self.last_op = "execute"
+        plans = []
+        for ti, th in enumerate(op["threads"]):
+            calls = []
+            for j, c in enumerate(th):
+                m = self.ref(c, "stream")
+                self.cur_resolved.setdefault("threads_resolved", {})[f"{ti}.{j}"] = self.cur_resolved.pop("stream")
+                calls.append(self.new_call(m, c["plan"], c["override"], "sync", None))
+            plans.append(calls)
+        if "threads_resolved" in self.cur_resolved:
+            res = self.cur_resolved.pop("threads_resolved")
+            self.cur_resolved["threads"] = [
+                [{**c, "stream": res[f"{ti}.{j}"]} for j, c in enumerate(th)]
+                for ti, th in enumerate(op["threads"])]
+        w = self.world
+        t0 = w.now
+
+        def user(calls):
+            def fn():
+                for c in calls:
+                    self.run_sync(c, mt=True)
+                    w.mt.yield_point(None)
+            return fn
+
+        vloop.run_threads(w, [user(cs) for cs in plans])
+        self.sync_block += w.now - t0
+        self.stat("fault_multi_thread_block")
+        self.stat("mt_calls", sum(len(cs) for cs in plans))
+        order = [c["no"] for cs in plans for c in cs]
+        ends = [n for n in self.end_order if n in set(order)]
+        if ends != sorted(ends):
+            self.stat("probe_threads_completed_out_of_issue_order")
+        for cs in plans:
+            for c in cs:
+                self.check_call(c)
 
     def op_cancel(self, op, loop):
         if not self.tasks:
@@ -1241,6 +1329,8 @@ class Forest:
                 self.op_join(op)
             elif k == "rootless":
                 self.op_rootless(op)
+            elif k == "mt_block":
+                self.op_mt(op)
             self.resolved.append({**op, "id": self.cur_id, **self.cur_resolved})
             self.check_all()
             # calls that completed meanwhile are checked as soon as the history has them
